@@ -485,8 +485,21 @@ package tree
 //@   call (*bytes.Buffer).WriteString@L3 [a_branch_comment_is_written_between_brackets_from_the_branch_s_own_list] a0 == newick && (a1 == "[" || a1 == "]" || (exists k int :: 0 <= k && k < len(n.br[i].comment) && a1 == n.br[i].comment[k]))
 //@   call strconv.FormatFloat [plain_decimal_shortest_representation_of_a_value_stored_on_the_branch] a1 == 102 && a2 == -1 && a3 == 64 && (a0 == n.br[i].support || a0 == n.br[i].pvalue || a0 == n.br[i].length)
 //@   call (*tree.Node).Newick [children_are_written_with_this_node_as_parent_into_the_same_buffer] a0 == child && a1 == n && a2 == newick && child != parent
+// order of the pieces of one child (property C01): [","] child-text [support ["/"pvalue]] {node comments} [":" length] {branch comments}
+//@ define nwsup(e *Edge, c *Node) int = (e.support != -1.0 && c.name == "") ? (e.pvalue != -1.0 ? 2 : 1) : 0
+//@   call (*tree.Node).Newick@L1 [the_child_s_own_text_comes_first_after_a_comma_for_every_child_but_the_first] ghost(ncalls_FormatFloat) == atHead(ghost(ncalls_FormatFloat)) && ghost(ncalls_WriteString) == atHead(ghost(ncalls_WriteString)) + (nbchild > 0 ? 1 : 0)
+//@   call strconv.FormatFloat@L1 [support_then_pvalue_then_length_each_after_the_child_s_text] ghost(ncalls_Newick) == atHead(ghost(ncalls_Newick)) + 1 && a0 == (ghost(ncalls_FormatFloat) == atHead(ghost(ncalls_FormatFloat)) ? (nwsup(n.br[i], child) > 0 ? n.br[i].support : n.br[i].length) : ((ghost(ncalls_FormatFloat) == atHead(ghost(ncalls_FormatFloat)) + 1 && nwsup(n.br[i], child) == 2) ? n.br[i].pvalue : n.br[i].length))
+//@   call (*bytes.Buffer).WriteString@L2^1 [node_comments_come_after_the_support_and_before_the_length] ghost(ncalls_FormatFloat) == atHead(ghost(ncalls_FormatFloat)) + nwsup(n.br[i], child) && ghost(ncalls_Newick) == atHead(ghost(ncalls_Newick)) + 1
+//@   call (*bytes.Buffer).WriteString@L3^1 [branch_comments_come_after_the_length] ghost(ncalls_FormatFloat) == atHead(ghost(ncalls_FormatFloat)) + nwsup(n.br[i], child) + (n.br[i].length != -1.0 ? 1 : 0)
+//@   call (*bytes.Buffer).WriteString@L1! [a_comma_before_the_child_s_text_the_support_right_after_its_formatting_a_colon_then_the_length] a0 == newick && (ghost(ncalls_Newick) == atHead(ghost(ncalls_Newick)) ? a1 == "," : (ghost(ncalls_Sprintf) > atHead(ghost(ncalls_Sprintf)) && ghost(ncalls_FormatFloat) == atHead(ghost(ncalls_FormatFloat)) + 2 && nwsup(n.br[i], child) == 2 && ghost(ncalls_WriteString) - atHead(ghost(ncalls_WriteString)) == (nbchild > 0 ? 2 : 1)) || a1 == ((nwsup(n.br[i], child) > 0 && ghost(ncalls_FormatFloat) == atHead(ghost(ncalls_FormatFloat)) + 1 && ghost(ncalls_WriteString) - atHead(ghost(ncalls_WriteString)) == (nbchild > 0 ? 1 : 0)) ? fmtfloat(n.br[i].support) : (ghost(ncalls_FormatFloat) == atHead(ghost(ncalls_FormatFloat)) + nwsup(n.br[i], child) ? ":" : fmtfloat(n.br[i].length))))
+//@   call (*bytes.Buffer).WriteString@L0 [an_opening_parenthesis_first_for_an_inner_node_the_closing_one_after_all_children_the_node_s_own_name_last] a0 == newick && a1 == (ghost(ncalls_WriteString) == old(ghost(ncalls_WriteString)) ? (len(n.neigh) > 1 ? "(" : n.name) : ((len(n.neigh) > 1 && ghost(ncalls_WriteString) == atexit(1, ghost(ncalls_WriteString))) ? ")" : n.name))
 //@   loop 1
+//@     invariant [the_opening_parenthesis_was_written_before_the_first_child] ghost(ncalls_WriteString) >= old(ghost(ncalls_WriteString)) + (len(n.neigh) > 1 ? 1 : 0)
 //@     step [support_only_for_an_unnamed_child_pvalue_only_with_support_length_when_present] child != parent ==> ghost(ncalls_FormatFloat) == atHead(ghost(ncalls_FormatFloat)) + ((n.br[i].support != -1.0 && child.name == "") ? (n.br[i].pvalue != -1.0 ? 2 : 1) : 0) + (n.br[i].length != -1.0 ? 1 : 0)
+//@   loop 2
+//@     invariant [writes_only_add] ghost(ncalls_WriteString) >= lold(ghost(ncalls_WriteString))
+//@   loop 3
+//@     invariant [writes_only_add] ghost(ncalls_WriteString) >= lold(ghost(ncalls_WriteString))
 
 // Hash sums of the two sides of every branch (property C04).  tax_hash is FNV-1a of the name: a function of the
 // string (trusted).  Down pass: the right-hand sums of a branch are reset, a tip contributes its name hash and counts
